@@ -1217,6 +1217,13 @@ class Interp:
 
     def st_For(self, s, scope):
         it = self.eval(s.iter, scope)
+        if CTX.mode == "sym" and isinstance(it, RangeVal) and it.step == 1 and not s.orelse:
+            spec0, key0 = self._loop_spec(s, scope)
+            if spec0 is not None and getattr(spec0, "abstract", False):
+                # a loop with a constant trip count that the harness wants treated by invariant (one arbitrary
+                # iteration) instead of being unrolled
+                self._sym_range_loop(s, scope, it, spec0, key0)
+                return
         items = self.iterate(it)
         if items is not None:
             if len(items) > UNROLL_LIMIT:
